@@ -15,7 +15,7 @@ PROPS = {
                 "runIPServer listeners sharing the real timestamp store, gaps 10 ms..10 s (both sides of the 3 s interleave window), server clock offset from 0 to +-30 years with skew up to "
                 "+-100 ppm and steps between exchanges, worlds placed just before the 2036 era rollover, per-direction latency 0..21 ms plus long delays up to 2 s, drop/duplicate up to 30 %, "
                 "server-side missing/late kernel timestamps, optional ephemeral port reuse; non-trivial = at least two accepted exchanges were checked against ground truth; distinct = distinct event-log hash",
-        "required_probes": ["bound-checked", "interleaved-accepted", "basic-reply-to-interleaved-request", "measurement-failed", "near-era", "excluded-clock-step-inside-exchange", "scion-bound-checked", "scion-interleaved-accepted", "forwarded-without-timestamp", "client-kernel-tx-stamp-missing", "returned-offset-checked"],
+        "required_probes": ["bound-checked", "interleaved-accepted", "basic-reply-to-interleaved-request", "measurement-failed", "near-era", "excluded-clock-step-inside-exchange", "scion-bound-checked", "scion-interleaved-accepted", "forwarded-without-timestamp", "client-kernel-tx-stamp-missing", "returned-offset-checked", "interleaved-request", "receive-timestamp-reused-for-client-address"],
         "components": {"real": ["core/client IPClient, MeasureClockOffsetIP", "core/server runIPServer, handleRequest, updateTXTimestamp", "net/udp (cmsg parsers, ReadTXTimestamp)", "net/ntp"],
                        "stub": dict(STUBS_COMMON, **{"kernel UDP stack": "simnet (sockets, SO_REUSEPORT group, control messages, error queue)"})},
         "assumptions": ["rounding allowance 16 ns (two truncating 2^-32 s conversions per timestamp and up to eight 1 ns receive-timestamp bumps)",
@@ -34,7 +34,7 @@ PROPS = {
                 "every 4th run is the SCION half: the real SCIONClient against real runSCIONServer listeners through a relay router, with 1..3 crafted SCION packets per attacked exchange (the genuine response with another source "
                 "ISD-AS or host, another destination ISD-AS or host, source and destination swapped, NTP fields changed, truncated, replays, the reflected request, forged responses from another AS, random bytes), so that the single retry is regularly used up before the packet of interest arrives; "
                 "non-trivial = at least one crafted datagram and two measurements; distinct = distinct event-log hash",
-        "required_probes": ["clean-exchange", "succeeded-under-attack", "measurement-failed", "scion-succeeded-under-attack", "scion-nts", "scion-nts-resealed", "provenance-checked"],
+        "required_probes": ["clean-exchange", "succeeded-under-attack", "measurement-failed", "scion-succeeded-under-attack", "scion-nts", "scion-nts-resealed", "provenance-checked", "crafted-but-valid-accepted", "nts-enabled-on-every-wired-client"],
         "components": {"real": ["core/client IPClient and SCIONClient receive loops", "net/ntp ValidateResponseMetadata/Timestamps", "net/nts DecodePacket/ProcessResponse", "core/server runIPServer, runSCIONServer"],
                        "stub": dict(STUBS_COMMON, **{"kernel UDP": "simnet", "attacker": "scripted injector"})},
         "assumptions": ["'comes from the queried server' is judged on the source address (a reply may come from any port of that address)",
@@ -124,7 +124,7 @@ PROPS = {
                 "later runs (every 4th of them over SCION) sample bit flips, responses correctly re-sealed under the session key but with a longer / shorter / one-bit-different unique identifier, every 16-bit length word set to 0,1,3,4,-4,+4,0xffff,15,16,17, the client's own request reflected as a response, a genuine response to an earlier request replayed, and unmodified replays; "
                 "non-trivial = at least two tampered packets judged; distinct = distinct event-log hash",
         "exhaustive_part": "single-bit flips of one request and one response at pool level 8: 4032 cases, enumerated completely over IP when the batch has at least 32 runs and again over SCION when it has at least 64 (quick tier: 160 runs)",
-        "required_probes": ["genuine-accepted", "request-tamper-rejected", "response-tamper-rejected", "genuine-accepted-after-tampered", "unauthenticated-position", "resealed-other-identifier", "transport:scion", "zero-tail-cut", "genuine-copy-behind-forged-request", "fields-inserted-before-authenticator"],
+        "required_probes": ["genuine-accepted", "request-tamper-rejected", "response-tamper-rejected", "genuine-accepted-after-tampered", "unauthenticated-position", "resealed-other-identifier", "transport:scion", "zero-tail-cut", "genuine-copy-behind-forged-request", "fields-inserted-before-authenticator", "trailing-data-ignored"],
         "components": {"real": ["net/nts DecodePacket, ProcessRequest, ProcessResponse, authenticate", "net/ntske cookies (Decode, Decrypt), Provider", "core/server runIPServer, runSCIONServer (NTS branches)", "core/client IPClient, SCIONClient (NTS branches)", "NTS-KE over real TLS"],
                        "stub": dict(STUBS_COMMON, **{"kernel UDP/TCP": "simnet", "attacker": "scripted re-delivery of captured packets", "SCION border routers": "one relay router", "NTS-KE transport of the SCION client": "TLS on simulated TCP (production wiring: QUIC over SCION, not simulated)"})},
         "assumptions": ["a change is 'accepted' by a listener iff it answers at all (with or without NTS fields), by the client iff the tampered datagram is the one it had read last when it reported an offset",
@@ -197,7 +197,7 @@ PROPS = {
                 "end-host forwarder on port 30041; SCMP echo and traceroute requests; packets for another L4 port delivered to the service port, to the end-host port, and addressed to the end-host port itself; "
                 "in 2/3 of the runs the router flips bits in transit (MAC, SPI, algorithm, payload, address header, traffic class, anywhere) in 10..60 % of the packets; "
                 "non-trivial = at least two replies judged at the router; distinct = distinct event-log hash",
-        "required_probes": ["ntp-reply-checked", "authenticated-exchange", "client-verified-response", "scmp-reply-checked", "not-forwarded-from-service-port", "forwarded-from-endhost-port", "not-forwarded-to-endhost-port", "measurement-failed", "served-unauthenticated-while-daemon-down", "mixed-address-families", "crafted-ntp-request", "listeners-started-by-the-service", "requests-delivered-to-the-endhost-port", "nts-with-packet-authentication", "authenticator-of-odd-length", "forwarder-stayed-a-forwarder"],
+        "required_probes": ["ntp-reply-checked", "authenticated-exchange", "client-verified-response", "scmp-reply-checked", "not-forwarded-from-service-port", "forwarded-from-endhost-port", "not-forwarded-to-endhost-port", "measurement-failed", "served-unauthenticated-while-daemon-down", "mixed-address-families", "crafted-ntp-request", "listeners-started-by-the-service", "requests-delivered-to-the-endhost-port", "nts-with-packet-authentication", "authenticator-of-odd-length", "forwarder-stayed-a-forwarder", "forwarder-started-by-the-service"],
         "components": {"real": ["core/server runSCIONServer (NTP, SCMP, forwarding branches); in a third of the authenticated runs started by core/server StartSCIONServer itself (sixteen listeners, their fetchers connected to the mock daemon)", "a quarter of the runs: NTS on top (net/nts, net/ntske provider, runNTSKEServerTLS, the client's fetcher over crypto/tls)", "core/client SCIONClient, MeasureClockOffsetSCION", "net/scion auth.go, Fetcher, DeriveHostHostKey", "scionproto slayers/spao/drkey (library)"],
                        "stub": dict(STUBS_COMMON, **{"SCION daemon": "mock daemon.Connector serving DRKeys derived with the real generic.Deriver", "border routers": "scripted relay that forwards, records and tampers", "kernel UDP": "simnet"}),
                        "not_run": ["one-hop and EPIC paths (empty and SCION paths only)"]},
@@ -231,7 +231,7 @@ PROPS = {
                 "per round a tape-chosen subset of the paths is offered (some listed twice, some without a fingerprint, order shuffled), packets are lost at the routers in half of the runs; every 50th run first enumerates crypto.Sample "
                 "over every sequence of accepted draws for n <= 7, k <= 4 and RandIntn on the rejection boundary with crypto/rand.Reader replaced by a scripted reader; non-trivial = at least two rounds judged; distinct = distinct event-log hash",
         "exhaustive_part": "crypto.Sample: all draw sequences for n <= 7, k <= min(4,n) (each k-subset equally often); RandIntn residues/rejection at boundary words for n in {1,2,3,5,7,10,1000,2^20,2^31-1}",
-        "required_probes": ["round-checked", "multi-client-round", "sticky-path-kept", "reset-after-path-withdrawn", "no-path-error", "ftm-checked", "uniformity-enumerated", "reset-outside-interleaved-mode", "wired-reference-clock", "reset-in-round-without-paths", "rounds-seconds-to-minutes-apart", "quiescent-after-rounds", "client-without-filter", "round-without-a-completed-measurement"],
+        "required_probes": ["round-checked", "multi-client-round", "sticky-path-kept", "reset-after-path-withdrawn", "no-path-error", "ftm-checked", "uniformity-enumerated", "reset-outside-interleaved-mode", "wired-reference-clock", "reset-in-round-without-paths", "rounds-seconds-to-minutes-apart", "quiescent-after-rounds", "client-without-filter", "round-without-a-completed-measurement", "ftm-checked-with-failed-clients"],
         "components": {"real": ["core/client MeasureClockOffsetSCION, SCIONClient", "base/crypto Sample, RandIntn", "core/measurements FaultTolerantMidpoint", "core/server runSCIONServer"],
                        "stub": dict(STUBS_COMMON, **{"border routers": "one scripted relay per offered path", "path lookup": "paths are handed to MeasureClockOffsetSCION directly (Pather not run)", "crypto/rand": "seeded per run; scripted reader for the enumeration"})},
         "assumptions": ["uniformity is decided on the random seam (enumeration of draw sequences), not statistically; positions within the chosen subset are not required to be uniform",
@@ -249,7 +249,7 @@ PROPS = {
                 "clocks (success/error x before / 1ns before / at / 1ns after / after the deadline / on cancellation / never until released), "
                 "0..3 overlapping second collections, optionally a follow-up collection on the same collector; non-trivial = at least one clock; "
                 "distinct = distinct event-log hash",
-        "required_probes": ["returned-at-deadline", "returned-early", "overlap-refused", "second-round", "partial-round", "success-with-zero-timestamp", "more-than-eight-clocks"],
+        "required_probes": ["returned-at-deadline", "returned-early", "overlap-refused", "second-round", "partial-round", "success-with-zero-timestamp", "more-than-eight-clocks", "result-at-return-instant"],
         "components": {"real": ["core/client ReferenceClockClient.MeasureClockOffsets, collectMeasurements", "context.WithTimeout timers (raw, virtual time)"],
                        "stub": dict(STUBS_COMMON, **{"reference clocks": "scripted client.ReferenceClock implementations"})},
         "assumptions": ["goroutine quiescence is measured with runtime.NumGoroutine against a baseline taken inside the bubble"],
@@ -289,7 +289,7 @@ PROPS = {
                 "and record sequence are generated: next-protocol, AEAD (15 / other / absent), server and port records, 0..8 cookies of 0..104 bytes, error (codes 0,1,2,3,0x8000,0xffff), warning and "
                 "unknown (critical or not) records inserted anywhere, shuffled order, missing end-of-message, records after end-of-message, message written in one or many TLS records, connection cut "
                 "(FIN or reset) after 0..1500 bytes; non-trivial = at least one key exchange connection; distinct = distinct event-log hash",
-        "required_probes": ["exchange-succeeded", "exchange-failed", "keys-agree", "real-keys-agree", "destination-checked", "named-destination", "scion-client", "named-host-not-an-address"],
+        "required_probes": ["exchange-succeeded", "exchange-failed", "keys-agree", "real-keys-agree", "destination-checked", "named-destination", "scion-client", "named-host-not-an-address", "real-server-exchange"],
         "components": {"real": ["net/ntske Fetcher, dialTLS, exchangeDataTLS, ReadData, ExportKeys", "core/server handleKeyExchangeTLS, newNTSKEMsg", "core/client IPClient (NTS request path); every fourth run core/client SCIONClient and MeasureClockOffsetSCION (requests through the relay router, destination read from the SCION packet)",
                                 "timeservice.go configureIPClientNTS", "crypto/tls (client and server handshakes, exporters)", "net/nts NewRequestPacket/EncodePacket"],
                        "stub": dict(STUBS_COMMON, **{"TCP": "simnet streams (in-order bytes, segmentation, FIN/reset at a byte offset)", "scripted peer": "tls.Server with generated record stream"}),
